@@ -69,6 +69,13 @@ def D.isZero : D → Bool
 
 def D.ofNat (n : Nat) : D := .fin (Int.ofNat n) 0
 
+/-- ⌊log2 n⌋ for n > 0 (0 for 0), by halving -/
+def log2Fuel : Nat → Nat → Nat
+  | 0, _ => 0
+  | fuel + 1, k => if k < 2 then 0 else 1 + log2Fuel fuel (k / 2)
+
+def natLog2 (n : Nat) : Nat := log2Fuel n n
+
 /-- nearest binary64 value of `n / d` -/
 def rnd (n : Int) (d : Nat) : D :=
   if n = 0 ∨ d = 0 then .fin 0 0 else
@@ -77,7 +84,7 @@ def rnd (n : Int) (d : Nat) : D :=
   let scale (e : Int) : Nat × Nat :=
     if e ≥ 0 then (a, d * 2 ^ e.toNat) else (a * 2 ^ (-e).toNat, d)
   -- a / d lies in (2^(la-ld-1), 2^(la-ld+1))
-  let e0 : Int := (Nat.log2 a : Int) - (Nat.log2 d : Int) - 52
+  let e0 : Int := (natLog2 a : Int) - (natLog2 d : Int) - 52
   let s0 := scale e0
   let e1 : Int := if s0.1 / s0.2 < 2 ^ 52 then e0 - 1 else if s0.1 / s0.2 ≥ 2 ^ 53 then e0 + 1 else e0
   let e : Int := if e1 < -1074 then -1074 else e1
@@ -86,7 +93,7 @@ def rnd (n : Int) (d : Nat) : D :=
   let rem := s.1 % s.2
   let mant' := if 2 * rem > s.2 ∨ (2 * rem = s.2 ∧ mant % 2 = 1) then mant + 1 else mant
   if mant' = 0 then (if neg then .nzero else .fin 0 0)
-  else if e + (Nat.log2 mant' : Int) + 1 > 1024 then (if neg then .ninf else .pinf)
+  else if e + (natLog2 mant' : Int) + 1 > 1024 then (if neg then .ninf else .pinf)
   else
     let m : Int := if neg then -(mant' : Int) else (mant' : Int)
     if e ≥ 0 then .fin (m * 2 ^ e.toNat) 0 else .fin m (-e).toNat
